@@ -182,7 +182,10 @@ Example C16_nonvacuous :
   /\ instant_match re [present; gone] now (vs_matchers s0) <> []
   /\ (forall t, instant_match re [present; gone] t (bare_matchers (vs_matchers s1)) = []).
 Proof.
-  cbv zeta. split; [vm_compute; reflexivity|]. split; [vm_compute; reflexivity|]. split; [vm_compute; discriminate|].
-  intro t. unfold instant_match. cbn [filter map]. reflexivity.
+  cbv zeta.
+  split; [vm_compute; reflexivity|].
+  split; [vm_compute; reflexivity|].
+  split; [vm_compute; discriminate|].
+  intro t. apply instant_match_no_label_match. vm_compute. reflexivity.
 Qed.
 Print Assumptions C16_nonvacuous.
